@@ -454,6 +454,9 @@ func (s *c09Scenario) deriveList(recv at.List, arg at.List, which int, resName s
 			}
 			return fmt.Sprintf("SubList(%d,%d) [outside the domain, returned]", bad[0], bad[1]), out
 		}
+		if n > 0 && r.Chance(1, 3) {
+			b -= n // the same range with the end counted from the back (an end <= 0 is taken relative to the count)
+		}
 		return fmt.Sprintf("SubList(%d,%d)", a, b), recv.SubList(a, b)
 	case 2:
 		if r.Chance(1, 3) {
